@@ -112,19 +112,20 @@ func (i *interpreter) checkWriteSlice(x []value, from, to int, fr *frame, what s
 func RunPath(w *World, fn *ssa.Function, prefix []int, opts *Options, sess *smt.Session, witness ...bool) *PathResult {
 	res := &PathResult{Prefix: prefix, Outcome: "ok", Funcs: map[string]bool{}}
 	i := &interpreter{
-		w:         w,
-		prog:      w.Prog,
-		globals:   map[*ssa.Global]*value{},
-		initDone:  map[*ssa.Package]bool{},
-		maxSteps:  opts.MaxSteps,
-		onces:     map[*value]*onceModel{},
-		mutexes:   map[*value]*mutexModel{},
-		wgs:       map[*value]*wgModel{},
-		pools:     map[*value]*poolModel{},
-		counters:  map[string]int{},
-		fnSeen:    map[*ssa.Function]bool{},
-		cellOwner: map[*value]int{},
-		mapOwner:  map[*omap]int{},
+		w:           w,
+		prog:        w.Prog,
+		globals:     map[*ssa.Global]*value{},
+		initDone:    map[*ssa.Package]bool{},
+		maxSteps:    opts.MaxSteps,
+		onces:       map[*value]*onceModel{},
+		mutexes:     map[*value]*mutexModel{},
+		wgs:         map[*value]*wgModel{},
+		pools:       map[*value]*poolModel{},
+		counters:    map[string]int{},
+		fnSeen:      map[*ssa.Function]bool{},
+		cellOwner:   map[*value]int{},
+		disabledExt: map[string]bool{},
+		mapOwner:    map[*omap]int{},
 	}
 	sess.Reset()
 	sess.Stats = smt.Stats{}
